@@ -59,6 +59,9 @@ type oApp struct {
 type oracle struct {
 	spec []AppSpec
 	a    []oApp
+	// runs that came to an end (each one runs the Terminate callback): the state word is 'loaded' a moment
+	// before the callback runs, so the wait for quiescence counts the callbacks as well
+	terms int
 }
 
 func newOracle(spec []AppSpec) *oracle {
@@ -98,6 +101,7 @@ func (o *oracle) finish(a int) {
 		x.live[i] = false
 	}
 	x.st = 1
+	o.terms++
 }
 
 func (o *oracle) appStart(a, mode int) int {
@@ -114,6 +118,7 @@ func (o *oracle) appStart(a, mode int) int {
 	x.mode = mode
 	if x.fail >= 0 && x.fail < o.spec[a].N {
 		o.finish(a)
+		o.terms-- // a rolled-back start: Start never ran, no Terminate callback to wait for
 		return retInit
 	}
 	for i := range x.live {
@@ -288,7 +293,7 @@ func runCase(node gen.Node, c Case) []Obs {
 		var o Obs
 		for {
 			o = w.observe(ret)
-			if sameState(o, or) {
+			if sameState(o, or) && w.terms() >= or.terms {
 				break
 			}
 			if time.Now().After(deadline) {
